@@ -146,6 +146,58 @@ class NDAdapter(Adapter):
                         o["h"] = r
                     else:
                         o["d"] = r
+            elif action == "FromArraysM":
+                LL, ri, m, keep = args
+                dim = len(LL)
+                shape = tuple(len(L) for L in LL)
+                f = np.zeros(shape, dtype=np.int64)
+                for c in np.ndindex(*shape):
+                    f[c] = 1 + sum(c[a] * 4 ** a for a in range(dim))
+                e = 2 * f + 1
+                cls = self.H2 if dim == 2 else self.HN
+                wv = float(self.we.val(1))
+                o["h"] = cls([self._binning(L, r) for L, r in zip(LL, ri)], f if wv == 1 else f * wv, errors2=e if wv == 1 else e * wv * wv,
+                             axis_names=self._names(dim), missed=m * wv, keep_missed=keep)
+            elif action == "ScaleND":
+                p_, q_, how, inplace = args
+                h = o["h"]
+                if how == "div":
+                    c = q_ / p_ if q_ % p_ else q_ // p_
+                    if inplace:
+                        h /= c
+                    else:
+                        o["d"] = h / c
+                else:
+                    c = p_ / q_ if p_ % q_ else p_ // q_
+                    if inplace:
+                        h *= c
+                    else:
+                        o["d"] = (c * h) if how == "rmul" else (h * c)
+            elif action == "NormalizeND":
+                percent, inplace = args
+                r = o["h"].normalize(inplace=inplace, percent=percent)
+                if inplace:
+                    o["h"] = r
+                else:
+                    o["d"] = r
+            elif action == "PartialNorm":
+                ax, inplace, table = args
+                h = o["h"]
+                if inplace:
+                    c = h.copy()
+                    r = c.partial_normalize(ax - 1, inplace=True)
+                else:
+                    r = h.partial_normalize(ax - 1 if self.spelling % 2 == 0 else h.axis_names[ax - 1])
+                obs["ret"] = {"freq": np.asarray(r.frequencies, dtype=float), "err2": np.asarray(r.errors2, dtype=float),
+                              "same_object": r is h, "dtype": str(r.dtype)}
+            elif action == "MergeMinFreq":
+                t, ax, inplace = args
+                den = pre["h"].get("den", 1)
+                r = o["h"].merge_bins(min_frequency=float(self.we.val(t)) / den, axis=ax - 1, inplace=inplace)
+                if inplace:
+                    o["h"] = r
+                else:
+                    o["d"] = r
             elif action == "GetItem":
                 (ix,) = args
                 idx = []
@@ -189,25 +241,33 @@ class NDAdapter(Adapter):
                     fail("bins", exp.tolist(), got.tolist())
                     break
         shape = tuple(len(L) for L in LL)
-        for fld, attr, val in (("freq", "frequencies", self.we.val), ("err2", "errors2", self.we.val2)):
+        den = rec.get("den", 1)
+        exact = den & (den - 1) == 0
+
+        def same(got, want):
+            if exact:
+                return feq(got, want)
+            w = float(want)
+            return abs(float(got) - w) <= 64 * 2.3e-16 * max(abs(w), 1e-300)
+        for fld, attr, val, dd in (("freq", "frequencies", self.we.val, den), ("err2", "errors2", self.we.val2, den * den)):
             if fld not in view:
                 continue
             got = np.asarray(getattr(x, attr))
             ok = got.shape == shape
             if ok:
                 for c, v in rec[fld].items():
-                    if not feq(got[tuple(i - 1 for i in c)], val(v)):
+                    if not same(got[tuple(i - 1 for i in c)], val(v) / dd):
                         ok = False
                         break
             if not ok:
-                fail(fld, {str(c): str(val(v)) for c, v in rec[fld].items()}, got.tolist())
+                fail(fld, {str(c): str(val(v) / dd) for c, v in rec[fld].items()}, got.tolist())
         if "missed" in view and dim > 1:
-            if not feq(x.missed, self.we.val(rec["missed"])):
-                fail("missed", str(self.we.val(rec["missed"])), repr(x.missed))
+            if not same(x.missed, self.we.val(rec["missed"]) / den):
+                fail("missed", str(self.we.val(rec["missed"]) / den), repr(x.missed))
         if "total" in view:
             tot = sum(rec["freq"].values())
-            if not feq(x.total, self.we.val(tot)):
-                fail("total", str(self.we.val(tot)), repr(x.total))
+            if not same(x.total, self.we.val(tot) / den):
+                fail("total", str(self.we.val(tot) / den), repr(x.total))
         if "names" in view:
             want = tuple(f"ax{n}" for n in rec["names"])
             got = tuple(x.axis_names)
@@ -235,6 +295,24 @@ class NDAdapter(Adapter):
             if gotn != exp:
                 bad.append("ret")
                 det["ret"] = {"expected": exp, "observed": repr(got)}
+        if action == "PartialNorm" and obs["ret"] is not None:
+            ax, inplace, table = args
+            r = obs["ret"]
+            okp = r["freq"].shape == tuple(len(L) for L in pre["h"]["bins"]) and r["dtype"].startswith("float")
+            if okp:
+                for c, (num, dv) in table.items():
+                    ix = tuple(i - 1 for i in c)
+                    want = float(self.we.val(num)) / float(self.we.val(dv)) if dv != 1 or True else 0
+                    e_want = float(self.we.val2(pre["h"]["err2"][c])) / (float(self.we.val(dv)) ** 2)
+                    if abs(r["freq"][ix] - want) > 8 * 2.3e-16 * max(want, 1e-300) or abs(r["err2"][ix] - e_want) > 8 * 2.3e-16 * max(e_want, 1e-300):
+                        okp = False
+                        break
+                # every line with content sums to one
+                sums = r["freq"].sum(axis=ax - 1)
+                okp = okp and all(abs(sv - 1) < 1e-12 or sv == 0 for sv in np.ravel(sums))
+            if not okp or (not inplace and r["same_object"]):
+                bad.append("partial_normalize")
+                det["partial_normalize"] = {"expected": {str(c): f"{v[0]}/{v[1]}" for c, v in table.items()}, "observed": r["freq"].tolist()}
         for key in ("h", "d"):
             rec = post[key]
             if "null" in rec:
@@ -268,11 +346,12 @@ class NDAdapter(Adapter):
             shape = tuple(len(L) for L in LL)
             f = np.zeros(shape)
             e = np.zeros(shape)
+            den = rec.get("den", 1)
             for c, v in rec["freq"].items():
-                f[tuple(i - 1 for i in c)] = float(self.we.val(v))
+                f[tuple(i - 1 for i in c)] = float(self.we.val(v)) / den
             for c, v in rec["err2"].items():
-                e[tuple(i - 1 for i in c)] = float(self.we.val2(v))
-            isint = self.we.den == 1 and not self.we.is_float
+                e[tuple(i - 1 for i in c)] = float(self.we.val2(v)) / den / den
+            isint = self.we.den == 1 and not self.we.is_float and den == 1
             dt = np.int64 if isint else np.float64
             binnings = [self.StaticBinning(np.array(self.pe.edges(L)), includes_right_edge=r) for L, r in zip(LL, rec["rincl"])]
             names = tuple(f"ax{n}" for n in rec["names"])
@@ -282,7 +361,7 @@ class NDAdapter(Adapter):
                 else:
                     cls = self.H2 if dim == 2 else self.HN
                     out[key] = cls(binnings, f.astype(dt), errors2=e.astype(dt), keep_missed=rec["keep"], axis_names=names,
-                                   missed=float(self.we.val(rec["missed"])), dtype=dt)
+                                   missed=float(self.we.val(rec["missed"])) / den, dtype=dt)
             except EXC:
                 return None
         return out
@@ -309,6 +388,8 @@ class NDAdapter(Adapter):
                 pass
         if action == "FromArrays":
             return f"FromArrays/{self._lk(args[0])}"
+        if action == "FromArraysM":
+            return f"FromArraysM/{self._lk(args[0])}/m{args[2]}/{'keep' if args[3] else 'nokeep'}"
         if action == "NewEmpty":
             LL, ri, keep = args
             return f"NewEmpty/{self._lk(LL)}/{''.join('TF'[not r] for r in ri)}/{'keep' if keep else 'nokeep'}"
@@ -331,6 +412,14 @@ class NDAdapter(Adapter):
             return f"{action}/{self._lk(LL)}/{'-'.join(str(a) for a in args[0])}"
         if action in ("Merge", "MergeRefused"):
             return f"{action}/{self._lk(LL)}/{args[0]}/ax{args[1]}/{'inplace' if args[2] else 'copy'}"
+        if action == "ScaleND":
+            return f"ScaleND/{self._lk(LL)}/{args[0]}_{args[1]}/{args[2]}/{'inplace' if args[3] else 'copy'}/{'keep' if h['keep'] else 'nokeep'}/m{min(h['missed'], 1)}"
+        if action == "NormalizeND":
+            return f"NormalizeND/{self._lk(LL)}/{'pct' if args[0] else 'one'}/{'inplace' if args[1] else 'copy'}/{'keep' if h['keep'] else 'nokeep'}/m{min(h['missed'], 1)}"
+        if action == "PartialNorm":
+            return f"PartialNorm/{self._lk(LL)}/ax{args[0]}/{'inplace' if args[1] else 'copy'}"
+        if action == "MergeMinFreq":
+            return f"MergeMinFreq/{self._lk(LL)}/{args[0]}/ax{args[1]}/{'inplace' if args[2] else 'copy'}"
         if action == "GetItem":
             return f"GetItem/{self._lk(LL)}/" + ";".join(":".join(str(v) for v in t) for t in args[0])
         if action == "Accumulate":
